@@ -65,6 +65,18 @@ TRUSTED = [
     "the C07 Poly model and the C04 filter loop (modelled, not verified: Python's Fraction arithmetic as a field, "
     "OrderedDict as association list, `sum()` as a fold from ZFilter([0]))",
     "cross-multiplication, polynomial product and signal comparison of harness/props/c05.py (exact Fractions)",
+    "translator T5 (harness/props/c05_tr.py -> lean/ALV/Gen/C05Src.lean, regenerated from audiolazy/lazy_filters.py on every "
+    "run): TRUSTS the semantics of the Python subset it accepts (straight-line bodies, if / return / raise, `and` / `or` / "
+    "`not`, conditional expressions on `is None`, augmented assignment to self.numpoly / self.denpoly as state of the object "
+    "under construction; isinstance tests decided from the KIND of the argument: ZFilter / other LinearFilter / number / int "
+    "exponent, i.e. one Lean definition per method and kind) and its vocabulary mapping: Poly operators -> C07.add / mul / "
+    "pow / eq / ne / neg / pos, Poly(list) / Poly(dict) / Poly(poly) -> C07.ofList / mk / mk, poly * number -> C07.mul _ "
+    "(C07.ofScalar c), P.copy() -> P, len -> length, P.terms() -> C07.sortAsc, min over the powers -> C04.minKey (ValueError "
+    "when empty), ZFilter(A, B) / cls(A, B) -> the translated __init__, operators between filters / numbers -> the translated "
+    "dunder of the same kinds (Python's binary-operator dispatch incl. the reflected fallback for number op filter; -x on a "
+    "plain LinearFilter is a TypeError), operator.truediv(a, c) -> ALV.C05.numTruediv (ZeroDivisionError at c = 0), "
+    "sum(... for k, v in P.terms()) -> ALV.C05.sumTerms (fold of + from ZFilter([0])), tuple(OrderedDict(terms)) -> the "
+    "sorted powers, hash(t) -> t; the two hand-written vocabulary definitions are lean/ALV/Model/C05Vocab.lean",
     "hash: the model gives the tuple of sorted powers that LinearFilter.__hash__ hashes; CPython's hash() is trusted",
     "hand-written Lean model ALV/Model/C05List.lean of FilterList objects (constructor rule on callable/iterable "
     "arguments, metaclass dunders `cls(super().__add__(other))` incl. the wrapping by user subclasses, CPython's "
@@ -91,14 +103,20 @@ ASSUMPTIONS = [
     "del / pop / insert / sort on a filter list, freq_response within a history (float)",
 ]
 MANIFEST = {
-    "technique": "Lean 4 proof (ZFilter model interpreted into the fraction field of Mathlib's Laurent polynomial "
+    "technique": "TRANSLATOR T5 (harness/props/c05_tr.py reads audiolazy/lazy_filters.py with ast on every run and "
+                 "regenerates lean/ALV/Gen/C05Src.lean: LinearFilter.__init__ / __eq__ / __ne__ / __hash__, ZFilterMeta."
+                 "__unary__ / __rbinary__, ZFilter.__add__ / __sub__ / __mul__ / __truediv__ / __pow__ / __call__(ZFilter), z — "
+                 "one shallow Lean definition per method and argument kind; theorems src_*_is_model: each equals the model "
+                 "function, so all theorems below are about the regenerated code) + Lean 4 proof (ZFilter model interpreted into the fraction field of Mathlib's Laurent polynomial "
                  "ring K[T;T⁻¹] for the field laws / substitution / expression trees of any depth, and into K⟦X⟧ "
                  "via C04's A·Y = B·X with unit denominators for the signal laws) + differential tie on expression "
                  "trees, law vectors, ==/!=/hash pairs, Cascade/Parallel lists, nested filter list objects (mutual "
                  "inductive FL/FLs with joint induction: call = composition/sum, numpoly/denpoly = one causal filter "
                  "denoting the product/sum at any depth), ==/!= matrices over mixed pools, operand spellings and "
                  "fractional-delay linearisation, in the exact Fraction regime",
-    "note": "78 theorems, no pending statement; D2 (__ne__ is `num != and den !=`) and D12 (ParallelFilter.denpoly "
+    "note": "104 theorems (26 of them src_*_is_model), no pending statement; not under the translator: filter list objects "
+            "(FilterList.__init__, CascadeFilter / ParallelFilter __call__ / numpoly / denpoly / _sum_filter), casts, float / "
+            "Fraction exponents, linearize — hand-written models tied by sampling; D2 (__ne__ is `num != and den !=`) and D12 (ParallelFilter.denpoly "
             "is the product while numpoly comes from the shortcut sum) are repaired in /repo; D22 (ParallelFilter.numpoly/"
             "denpoly run reduce(operator.add, self) on the raw elements: filter lists are concatenated, numbers stay "
             "numbers) is repaired in /repo (04c3c25) and the model follows the repaired code; each is stated in "
@@ -109,6 +127,38 @@ MANIFEST = {
 }
 
 warnings.filterwarnings("ignore", message="StreamTeeHub requesting")
+
+
+# ----------------------------------------------------------------------------
+# translator T5: the algebra dunders are regenerated from the source text
+# ----------------------------------------------------------------------------
+def regenerate(eng=None):
+    """rewrite lean/ALV/Gen/C05Src.lean from audiolazy/lazy_filters.py of the repo under test (ast, no import); the
+    theorems ALV.Props.C05.src_*_is_model compare every regenerated definition with the hand-written model"""
+    from props import c05_tr
+    return c05_tr.regenerate(eng)
+
+
+def extra_checks(eng):
+    import os
+    import subprocess
+    from props import c05_tr
+    eng.extra["translated"] = {"translator": "harness/props/c05_tr.py -> lean/ALV/Gen/C05Src.lean (shallow, one definition per "
+                                             "method and kind of argument)",
+                               "under_translator": list(c05_tr.TRANSLATED),
+                               "not_translated": dict(c05_tr.NOT_TRANSLATED)}
+    try:
+        text = c05_tr.read_source()
+        good = subprocess.run(["git", "-C", common.VERIF, "show", "HEAD:lean/" + c05_tr.GEN_REL.replace(os.sep, "/")],
+                              capture_output=True, text=True, timeout=30)
+        committed = good.stdout if good.returncode == 0 and good.stdout else None
+        if committed is None:       # not committed yet (first run): the file on disk
+            path = os.path.join(common.LEAN, c05_tr.GEN_REL)
+            committed = open(path).read() if os.path.exists(path) else None
+        for item in c05_tr.selftest(text, committed):
+            yield item
+    except Exception as ex:   # noqa
+        yield ("translator-selftest", False, "%s: %s" % (type(ex).__name__, ex))
 Z = F(0)
 COEFFS = [F(1), F(-1), F(2), F(-2), F(3), F(1, 2), F(-1, 2), F(1, 4), F(3, 2), F(-3, 4), F(1, 3), F(-2, 3), F(5), F(-5, 2)]
 DYADIC = [F(1), F(-1), F(2), F(-2), F(3), F(1, 2), F(-1, 2), F(1, 4), F(3, 2), F(-3, 4), F(5), F(-5, 2)]
